@@ -4,7 +4,7 @@ from __future__ import annotations
 import ast
 import re
 
-from sa.loader import norm, norm1, walk_shallow, own_nodes, call_name
+from sa.loader import recv, norm, norm1, walk_shallow, own_nodes, call_name
 from sa.tables import fold, Unfoldable, compiled_patterns, parse_regex, OPS
 from sa.rulekit import (nodes_calling, node_calls, nodes_where, return_nodes, handlers_in,
                         handler_reraises, is_const)
